@@ -26,13 +26,13 @@ type vShItem struct {
 	mod int
 }
 
-func (it *vShItem) Key() int            { return it.key }
-func (*vShItem) Hash(key int) uint64    { return uint64(key) }
-func (it *vShItem) Cksum() uint32       { return uint32(it.key) }
-func (*vShItem) StorSize() int          { return 4 }
-func (*vShItem) IsTomb() bool           { return false }
-func (it *vShItem) LastMod() int        { return it.mod }
-func (it *vShItem) SetLastMod(mod int)  { it.mod = mod }
+func (it *vShItem) Key() int             { return it.key }
+func (*vShItem) Hash(key int) uint64     { return uint64(key) }
+func (it *vShItem) Cksum() uint32        { return uint32(it.key) }
+func (*vShItem) StorSize() int           { return 4 }
+func (*vShItem) IsTomb() bool            { return false }
+func (it *vShItem) LastMod() int         { return it.mod }
+func (it *vShItem) SetLastMod(mod int)   { it.mod = mod }
 func (it *vShItem) Write(w *stor.Writer) { w.Put4(it.key) }
 
 func vShKeys(ht Hamt[int, *vShItem]) []int {
@@ -67,11 +67,17 @@ func TestVerifC02HamtShare(t *testing.T) {
 			keys = append(keys, k)
 			name[k] = 200 + j
 		}
-		ht := Hamt[int, *vShItem]{}.Mutable()
-		for _, k := range keys {
-			ht.Put(&vShItem{key: k})
+		var old Hamt[int, *vShItem]
+		if msg := lib.Catch(func() {
+			ht := Hamt[int, *vShItem]{}.Mutable()
+			for _, k := range keys {
+				ht.Put(&vShItem{key: k})
+			}
+			old = ht.Freeze()
+		}); msg != "" {
+			tr.Fail("impl-panic", fmt.Sprintf("hamt build nvals=%d depth=%d: %s", nvals, depth, msg))
+			continue
 		}
-		old := ht.Freeze()
 		before := vShKeys(old)
 		var oldChild *node[int, *vShItem]
 		if len(old.root.ptrs) == 1 {
